@@ -120,12 +120,72 @@ def _terminate_parallel_maps(mesh):
                 pm.f_Z = mesh.equilibrium.f_Z
 
 
+class _CliDone(Exception):
+    pass
+
+
+def cli_case(spec, casedir, build):
+    """Runs a real command-line entry point; the grid it writes becomes grid.nc."""
+    import shutil
+
+    import yaml
+
+    kind = spec["kind"]
+    work = os.path.join(casedir, "cli")
+    shutil.rmtree(work, ignore_errors=True)
+    os.makedirs(work)
+    ytext = spec.get("yaml_text")
+    if ytext is None and spec.get("yaml_file"):
+        with open(os.path.join(env.REPO, spec["yaml_file"])) as f:
+            ytext = f.read()
+    if ytext is None:
+        ytext = yaml.safe_dump(spec.get("opts", {}))
+    extra = spec.get("yaml_update")
+    if extra:
+        dct = yaml.safe_load(ytext) or {}
+        dct.update(extra)
+        ytext = yaml.safe_dump(dct)
+    ypath = os.path.join(work, "input.yaml")
+    with open(ypath, "w") as f:
+        f.write(ytext)
+    out_name = "bout.grd.nc"
+    try:
+        y = yaml.safe_load(ytext)
+        if isinstance(y, dict) and "grid_file" in y:
+            out_name = y["grid_file"]
+    except Exception:
+        pass
+    if kind == "cli_geqdsk":
+        fam = build.family_of(dict(spec, kind="tok", via="geqdsk"))
+        inp = build.tok_inputs(dict(spec, kind="tok"), fam)
+        gpath = os.path.join(work, "input.geqdsk")
+        build.write_geqdsk_file(gpath, inp, fam)
+        build.mutate_text_file(gpath, spec.get("geqdsk_mutation"))
+        build.run_cli("hypnotoad_geqdsk", [gpath] + ([ypath] if spec.get("with_yaml", True) else []), work)
+    elif kind == "cli_circ":
+        build.run_cli("hypnotoad_circular", [ypath], work)
+    elif kind == "cli_torpex":
+        build.run_cli("hypnotoad_torpex", [ypath, "--noplot"], work)
+        out_name = "torpex.grd.nc"
+    src = os.path.join(work, out_name)
+    if not os.path.exists(src):
+        raise RuntimeError("command-line run finished without writing %s" % out_name)
+    dst = os.path.join(casedir, "grid.nc")
+    if os.path.exists(dst):
+        os.remove(dst)
+    shutil.move(src, dst)
+    shutil.rmtree(work, ignore_errors=True)
+
+
 def generate(casedir, spec):
     """Stage 1.  Returns a Capture (live objects) and writes gen.json etc."""
     from . import build, contracts
 
     gen = {"outcome": None, "stage": "start", "t0": time.time()}
     kind = spec.get("kind", "tok")
+    os.environ["VERIF_CONTRACT_LOG"] = os.path.join(casedir, "contracts_workers.jsonl")
+    if os.path.exists(os.environ["VERIF_CONTRACT_LOG"]):
+        os.remove(os.environ["VERIF_CONTRACT_LOG"])
     counters = contracts.install(spec)
     eq = mesh = fam = None
     inputs = {}
@@ -138,8 +198,17 @@ def generate(casedir, spec):
                 eq, mesh = build.build_circular(spec, casedir)
             elif kind == "torpex":
                 eq, mesh = build.build_torpex(spec, casedir)
+            elif kind == "example":
+                eq, mesh = build.build_example(spec, casedir)
+            elif kind in ("cli_geqdsk", "cli_circ", "cli_torpex"):
+                cli_case(spec, casedir, build)
+                stage = "cli"
+                gen["outcome"] = "ok"
+                gen["cli"] = True
             else:
                 raise ValueError("unknown case kind %r" % kind)
+            if gen.get("cli"):
+                raise _CliDone()
             gen["t_mesh"] = time.time() - gen["t0"]
             for h in spec.get("history", []) or []:
                 stage = "redistributePoints"
@@ -153,6 +222,8 @@ def generate(casedir, spec):
                 os.remove(ncpath)
             mesh.writeGridfile(ncpath)
         gen["outcome"] = "ok"
+    except _CliDone:
+        pass
     except BaseException as e:  # noqa: B902 - SystemExit from argparse etc. is a refusal
         if isinstance(e, KeyboardInterrupt):
             raise
@@ -169,7 +240,7 @@ def generate(casedir, spec):
         _terminate_parallel_maps(mesh)
     cap = Capture(casedir, spec, eq=eq, mesh=mesh, fam=fam, inputs=inputs, gen=gen)
     # persist
-    if gen["outcome"] == "ok":
+    if gen["outcome"] == "ok" and mesh is not None:
         try:
             import dill
 
@@ -256,7 +327,7 @@ def main(argv=None):
             cap.fam = build.family_of(spec)
     else:
         cap = load_capture(casedir, spec)
-        if cap.gen.get("outcome") == "ok" and cap.mesh is None:
+        if cap.gen.get("outcome") == "ok" and cap.mesh is None and not cap.gen.get("cli"):
             # capture could not be pickled: regenerate in this process
             for fn in ("gen.json",):
                 os.remove(os.path.join(casedir, fn))
